@@ -52,6 +52,7 @@ type c16Path struct {
 type c16Vars struct {
 	batch, read, res types.Object
 	idx              map[types.Object]bool
+	lin              map[types.Object][2]int64 // variables defined as a*len(res)+b (subjectIdx, objectIdx := 2*len(res), 2*len(res)+1)
 }
 
 func c16VarsOf(pkg *packages.Package, fd *ast.FuncDecl) c16Vars {
@@ -98,6 +99,40 @@ func c16VarsOf(pkg *packages.Package, fd *ast.FuncDecl) c16Vars {
 		}
 		return true
 	})
+	// variables defined once as a linear expression of len(res)
+	v.lin = map[types.Object][2]int64{}
+	saveU, saveV := linUnit, linVars
+	linUnit, linVars = v.res, nil
+	nDefs := map[types.Object]int{}
+	ast.Inspect(fd.Body, func(n ast.Node) bool {
+		as, ok := n.(*ast.AssignStmt)
+		if !ok || len(as.Lhs) != len(as.Rhs) {
+			return true
+		}
+		for i, l := range as.Lhs {
+			o := objOf(info, l)
+			if o == nil || v.idx[o] {
+				continue
+			}
+			nDefs[o]++
+			if a, b, ok := linearIn(info, as.Rhs[i], v.idx); ok && a != 0 && as.Tok == token.DEFINE {
+				v.lin[o] = [2]int64{a, b}
+			}
+		}
+		return true
+	})
+	for o := range v.lin {
+		if nDefs[o] != 1 {
+			delete(v.lin, o)
+		}
+	}
+	linUnit, linVars = saveU, saveV
+	if v.res != nil && len(v.lin) > 0 && len(v.idx) == 0 {
+		// the index variables are defined directly from len(res): they play the part of i := len(res)
+		for o := range v.lin {
+			v.idx[o] = false
+		}
+	}
 	return v
 }
 
@@ -207,6 +242,13 @@ func c16Walk(pkg *packages.Package, body []ast.Stmt, kind string, vars c16Vars, 
 			}
 			switch s := st.(type) {
 			case *ast.AssignStmt:
+				// subjectIdx, objectIdx := 2*len(res), 2*len(res)+1: index variables defined from
+				// len(res) directly; they must be taken before the append to res as well
+				for _, l := range s.Lhs {
+					if _, isLin := vars.lin[objOf(info, l)]; isLin {
+						p.iDefBeforeRes = p.resApp == 0
+					}
+				}
 				if len(s.Lhs) == 1 && len(s.Rhs) == 1 {
 					lhs := objOf(info, s.Lhs[0])
 					if call, ok := unparen(s.Rhs[0]).(*ast.CallExpr); ok {
@@ -373,15 +415,29 @@ func importsOf(pkg *packages.Package) []*packages.Package {
 }
 
 // linearIn: e == a*i + b for an index variable i of idx (constants folded by the type checker).
+// linUnit / linVars: what linearIn treats as the index besides the variables in idx - len(<res>) itself
+// and variables with a recorded linear definition (set while a function is analysed).
+var (
+	linUnit types.Object
+	linVars map[types.Object][2]int64
+)
+
 func linearIn(info *types.Info, e ast.Expr, idx map[types.Object]bool) (a, b int64, ok bool) {
 	e = unparen(e)
 	if v, isK := intLit(info, e); isK {
 		return 0, v, true
 	}
 	switch x := e.(type) {
+	case *ast.CallExpr:
+		if id, isID := unparen(x.Fun).(*ast.Ident); isID && id.Name == "len" && len(x.Args) == 1 && linUnit != nil && objOf(info, x.Args[0]) == linUnit {
+			return 1, 0, true
+		}
 	case *ast.Ident:
 		if idx[objOf(info, x)] {
 			return 1, 0, true
+		}
+		if ab, ok := linVars[objOf(info, x)]; ok {
+			return ab[0], ab[1], true
 		}
 	case *ast.BinaryExpr:
 		a1, b1, ok1 := linearIn(info, x.X, idx)
@@ -424,7 +480,11 @@ func closureIndex(info *types.Info, fl *ast.FuncLit, vars c16Vars) (offset int, 
 			if vars.read == nil || objOf(info, x.X) != vars.read {
 				return true
 			}
-			if a, b, lin := linearIn(info, x.Index, vars.idx); lin && a != 0 {
+			saveU, saveV := linUnit, linVars
+			linUnit, linVars = vars.res, vars.lin
+			a, b, lin := linearIn(info, x.Index, vars.idx)
+			linUnit, linVars = saveU, saveV
+			if lin && a != 0 {
 				offset, mult, ok = int(b), int(a), true
 			} else {
 				offset, mult, ok = -2, -2, true
@@ -563,11 +623,22 @@ func r162single(c *Ctx, pkg *packages.Package) {
 				return true
 			}
 			appended := false
+			posVars := map[types.Object]bool{} // v := len(batch)-1 taken in this block after its append
 			for _, st := range blk.List {
 				if as, ok := st.(*ast.AssignStmt); ok && len(as.Rhs) == 1 && len(as.Lhs) == 1 {
 					if call, ok := unparen(as.Rhs[0]).(*ast.CallExpr); ok {
 						if id, ok := unparen(call.Fun).(*ast.Ident); ok && id.Name == "append" && vars.batch != nil && objOf(info, as.Lhs[0]) == vars.batch {
 							appended = true
+							posVars = map[types.Object]bool{} // a position taken before this append is stale
+						}
+					}
+					if base, k, isMinus := minusConst(info, as.Rhs[0]); isMinus && k == 1 && appended && as.Tok == token.DEFINE {
+						if c, isCall := base.(*ast.CallExpr); isCall && len(c.Args) == 1 && vars.batch != nil && objOf(info, c.Args[0]) == vars.batch {
+							if id, isID := unparen(c.Fun).(*ast.Ident); isID && id.Name == "len" {
+								if o := objOf(info, as.Lhs[0]); o != nil {
+									posVars[o] = true
+								}
+							}
 						}
 					}
 				}
@@ -577,6 +648,22 @@ func r162single(c *Ctx, pkg *packages.Package) {
 							n++
 							inner, ok := unparen(call.Args[0]).(*ast.CallExpr)
 							okArg := false
+							// do(func() { ... u[v] ... }) with v the position variable of this block
+							if fl, isLit := unparen(call.Args[0]).(*ast.FuncLit); isLit && vars.read != nil {
+								nIdx, allPos := 0, true
+								ast.Inspect(fl.Body, func(n2 ast.Node) bool {
+									if ix, isIx := n2.(*ast.IndexExpr); isIx && objOf(info, ix.X) == vars.read {
+										nIdx++
+										if !posVars[objOf(info, ix.Index)] {
+											allPos = false
+										}
+									}
+									return true
+								})
+								if nIdx > 0 && allPos {
+									okArg = true
+								}
+							}
 							if ok && len(inner.Args) == 1 && vars.batch != nil {
 								if base, k, isMinus := minusConst(info, inner.Args[0]); isMinus && k == 1 {
 									if c, isCall := base.(*ast.CallExpr); isCall && len(c.Args) == 1 && objOf(info, c.Args[0]) == vars.batch {
